@@ -237,3 +237,55 @@ func HarnessSubpathTLS() {
 	vCover(w.status == 503, "refusal reachable")
 	vCover(w.status == 200, "forward reachable")
 }
+
+// HarnessSubpathRedirect: the redirect of a sub-path service, through the real Router.ServeHTTP. A root-path service
+// with TLS + redirect and a sub-path service under /app (with or without prefix stripping) share a host; a plain-HTTP
+// request below /app is answered 301 to the same host (port removed), the same path — matched prefix included — and
+// the same query, and nothing is forwarded. The request URI is the one net/url computes from the request's URL.
+func HarnessSubpathRedirect() {
+	vFixMapOrderType("requestServiceMap")
+	vSortMode = 0
+	vRealRequestURI = true
+	mk := func(name string, prefix string, tlsOn, redirect, strip bool) *Service {
+		opts := ServiceOptions{Hosts: []string{"h"}, PathPrefixes: []string{prefix}, TLSEnabled: tlsOn, TLSRedirect: redirect, StripPrefix: strip,
+			TLSCertificatePath: "cert.pem", TLSPrivateKeyPath: "key.pem"}
+		s, err := NewService(name, opts, TargetOptions{HealthCheckConfig: HealthCheckConfig{Path: "/up"}})
+		vAssert(err == nil, "subpath redirect: service builds")
+		s.active = vBalancer("t-" + name)
+		return s
+	}
+	r := NewRouter("/state")
+	strip := vBool("strip")
+	root := mk("root", "/", true, true, false)
+	sub := mk("sub", "/app", false, false, strip) // inherits TLS + redirect from the root-path service (HarnessSubpathTLS)
+	if vChoose("subpath_first", 2) == 1 {
+		r.services.Set(sub)
+		r.services.Set(root)
+	} else {
+		r.services.Set(root)
+		r.services.Set(sub)
+	}
+	// tail over the bytes {'/', 'a'} (nothing net/url would escape: the escaping itself is C13's subject), query free
+	tail := vString("tail", vParam("tailcap", 2))
+	vAssume(vOr(len(tail) == 0, strings.HasPrefix(tail, "/")))
+	vAssume(strings.Count(tail, "/")+strings.Count(tail, "a") == len(tail))
+	query := vString("query", vParam("querycap", 2))
+	vAssume(!vHasByte(query, '#'))
+	path := "/app" + tail
+	if vChoose("to_root", 2) == 1 {
+		path = "/x" + tail
+	}
+	u := &url.URL{Path: path, RawQuery: query}
+	want := path
+	if query != "" {
+		want += "?" + query
+	}
+	req := &http.Request{Method: "GET", URL: u, Host: "h:80", Header: http.Header{}}
+	w := vNewRecorder()
+	r.ServeHTTP(w, req)
+	w.finish()
+	vAssert(w.status == 301 && len(vForwards) == 0, "subpath redirect: plain request below a TLS+redirect root-path service => 301, not forwarded")
+	vAssert(w.hdr.Get("Location") == "https://h"+want, "subpath redirect: Location keeps host (port removed), full path (matched prefix included) and query")
+	vCover(strip && path[1] == 'a', "stripping sub-path service reachable")
+	vCover(query != "", "query reachable")
+}
